@@ -30,12 +30,12 @@ Parse monitors are skipped for the statements the alchemy parser cannot translat
 (C06 matters; counted as ``parser_fragment_skipped``).  Feeds of lower priority than the selected one are not judged -
 the property says nothing about them.
 
-Known findings on the pinned tree (known_findings.d/C09.json; each has a directed case, so its KNOWN-FINDING line is printed
-on every run; a repair of ``parser.bypass`` / ``visit_reference`` / ``Importer.Slot`` was proposed to the lead):
-  matched-feed-unprovisioned:{join,query,set}-advertised-without-inner-tables - ``parser.bypass`` runs the wrapped visit
-      (which resolves the inner tables) before it consults the feed's mapping for the sub-statement;
-  matched-feed-unprovisioned:reference-advertised-without-inner-tables - ``visit_reference`` never consults the mapping;
-  match-raises-AttributeError:string-reference-slot - ``Slot('name')`` takes ``setup.Feed.resolve()``'s tuple for a feed.
+Former findings (repaired in /repo by 2d7acf5, bad46a2, 088ee89; recorded as "fixed" in known_findings.json).  Each keeps a
+directed case that runs on every quick run (floor ``directed_checked``), so a regression is reported under these keys:
+  matched-feed-unprovisioned:{join,query,set}-advertised-without-inner-tables - ``parser.bypass`` ran the wrapped visit
+      (which resolves the inner tables) before it consulted the feed's mapping for the sub-statement;
+  matched-feed-unprovisioned:reference-advertised-without-inner-tables - ``visit_reference`` never consulted the mapping;
+  match-raises-AttributeError:string-reference-slot - ``Slot('name')`` took ``setup.Feed.resolve()``'s tuple for a feed.
 A half repair (mapping consulted first, but the origins inside the provided sub-statement left unregistered) shows up
 as ``selected-parser-raises-KeyError:via-...``.
 
